@@ -5,6 +5,7 @@ package registry
 import (
 	"encoding/json"
 	"fmt"
+	"math/rand"
 	"os"
 	"path/filepath"
 	"sort"
@@ -58,6 +59,10 @@ func (m *smap) UnmarshalJSON(b []byte) error {
 }
 
 type cas struct {
+	// Prop: set when the cases are replayed under another property (C08, C17: where a path under a prefix leads;
+	// C16: the file named in positions); what the registry itself decides (acceptance of a load, the bare name,
+	// the binding of an import) is C13's business and is then executed but not compared
+	Prop    string   `json:"prop"`
 	Mode    string   `json:"mode"`
 	Loads   []desc   `json:"loads"`
 	Oks     []bool   `json:"oks"`
@@ -138,7 +143,7 @@ func tagOf(m *yang.Module) string {
 
 func exec(kind byte, body []byte) *core.Verdict {
 	if kind == 'B' {
-		return &core.Verdict{OK: true, Out: true}
+		return genReg(body)
 	}
 	var c cas
 	if err := json.Unmarshal(body, &c); err != nil {
@@ -150,6 +155,10 @@ func exec(kind byte, body []byte) *core.Verdict {
 	v := &core.Verdict{OK: true, Class: classOf(&c), NT: len(c.Loads) >= 2}
 	var hist []string
 	fail := func(sig, f string, a ...any) *core.Verdict {
+		if c.Prop != "" && c.Prop != "C13" && !strings.Contains(sig, "another-revision") {
+			v.Out = true
+			return v
+		}
 		v.OK, v.Sig, v.Detail = false, sig, fmt.Sprintf(f, a...)+"\nloads: "+strings.Join(hist, ", ")
 		return v
 	}
@@ -345,6 +354,8 @@ func findFile(c *cas) *core.Verdict {
 // Check is the registry / file-choice part of C13 (the submodule part is in the schema family).
 // RegOnly / FsOnly: the same cases under another property (C08, C17: what a prefix reaches; C16: the file name in positions)
 func RegOnly(r *core.Run) {
+	core.CaseSuffix = `,"prop":"` + r.ID + `"}`
+	defer func() { core.CaseSuffix = "" }()
 	r.DirectionA("registry", core.TLCOpts{Module: "MCRegistry", Cfg: "MCRegistry_quick.cfg", Workers: 12}, func(i int64, body string) bool {
 		return strings.Contains(body, `"mode":"reg"`)
 	})
@@ -361,4 +372,219 @@ func Check(r *core.Run) {
 		mod, cfg = "MCRegistryT", "MCRegistryT.cfg"
 	}
 	r.DirectionA("registry", core.TLCOpts{Module: mod, Cfg: cfg, Workers: 12}, nil)
+	// direction B: recorded histories of loads and queries, and file choices, judged step by step by RegistryTrace
+	n := 400
+	if r.Tier == "thorough" {
+		n = 6000
+	}
+	r.DirectionB("registry", n, core.TLCOpts{Module: "RegistryTrace", Cfg: "RegistryTrace.cfg", HeapGB: 8})
+}
+
+// ---- direction B: recorded histories judged by RegistryTrace.tla ----------------------------
+
+// genReg drives one Modules value through a random history of loads and queries (or, for every
+// fourth trace, one file choice in a random directory layout) and records what the library said.
+func genReg(body []byte) *core.Verdict {
+	var q struct {
+		Seed int64
+		Tid  int
+	}
+	json.Unmarshal(body, &q)
+	rng := rand.New(rand.NewSource(q.Seed*32452843 + int64(q.Tid)))
+	reset, _ := json.Marshal(map[string]any{"ev": "reset", "tid": q.Tid})
+	events := []json.RawMessage{reset}
+	emit := func(m map[string]any) {
+		b, _ := json.Marshal(m)
+		events = append(events, b)
+	}
+	tmp, err := os.MkdirTemp(core.Root+"/out", "regb")
+	if err != nil {
+		return &core.Verdict{Infra: err.Error()}
+	}
+	defer os.RemoveAll(tmp)
+	if q.Tid%4 == 0 {
+		return genFs(rng, tmp, q.Tid, events)
+	}
+	os.Chdir(tmp) // an empty current directory: nothing is fetched from the file system
+	ms := yang.NewModules()
+	names := []string{"a", "b", "c"}
+	class := "registry"
+	nl := 3 + rng.Intn(12)
+	type acc struct {
+		name string
+		sub  bool
+		rev  int
+	}
+	var accepted []acc
+	seenRev := map[string]bool{}
+	nimp := 0
+	allowNoRevAfter := rng.Intn(20) == 0 // the listed finding's pattern: kept rare, it ends the comparison of its trace
+	for i := 0; i < nl; i++ {
+		sub := rng.Intn(4) == 0
+		n := names[rng.Intn(len(names))]
+		key := n
+		if sub {
+			key = "s" + n // submodules live in a registry of their own; the specification sees them as further names
+		}
+		var revs []int
+		for k := rng.Intn(4); k > 0; k-- {
+			r := 1 + rng.Intn(8)
+			dup := false
+			for _, x := range revs {
+				dup = dup || x == r
+			}
+			if !dup {
+				revs = append(revs, r)
+			}
+		}
+		if len(revs) == 0 && seenRev[key] {
+			if !allowNoRevAfter {
+				revs = []int{1 + rng.Intn(8)}
+			} else {
+				class = "revisionless-module-offered-after-a-revisioned-one"
+			}
+		}
+		if len(revs) > 0 {
+			seenRev[key] = true
+		}
+		tag := fmt.Sprintf("%s-t%d", key, i)
+		var sb strings.Builder
+		if sub {
+			fmt.Fprintf(&sb, "submodule %s { belongs-to %s { prefix %s; } description %q;\n", key, n, n, tag)
+		} else {
+			fmt.Fprintf(&sb, "module %s { namespace \"urn:%s\"; prefix %s; description %q;\n", key, key, key, tag)
+		}
+		for _, r := range revs { // written in the order drawn: the latest need not come first
+			fmt.Fprintf(&sb, "  revision %s;\n", date(r))
+		}
+		sb.WriteString("}\n")
+		perr := ms.Parse(sb.String(), fmt.Sprintf("%s.yang", tag))
+		if revs == nil {
+			revs = []int{}
+		}
+		emit(map[string]any{"ev": "load", "name": key, "revs": revs, "tag": tag, "ok": perr == nil})
+		if perr == nil {
+			accepted = append(accepted, acc{key, sub, latest(desc{Revs: revs})})
+		}
+		// queries, now and then
+		if rng.Intn(3) == 0 && len(accepted) > 0 {
+			a := accepted[rng.Intn(len(accepted))]
+			var m *yang.Module
+			if a.sub {
+				m = ms.SubModules[a.name]
+			} else {
+				m = ms.Modules[a.name]
+			}
+			emit(map[string]any{"ev": "bare", "name": a.name, "tag": tagOf(m)})
+		}
+		if rng.Intn(4) == 0 && len(accepted) > 0 {
+			// an importer (or an including module) naming an accepted text, with or without its revision-date
+			a := accepted[rng.Intn(len(accepted))]
+			rev := 0
+			if rng.Intn(2) == 0 {
+				rev = a.rev
+			}
+			rd := ""
+			if rev != 0 {
+				rd = fmt.Sprintf(" revision-date %s;", date(rev))
+			}
+			nimp++
+			in := fmt.Sprintf("imp%d", nimp)
+			if a.sub {
+				continue // an include from a module the submodule does not belong to is an error of its own: not a registry question
+			}
+			text := fmt.Sprintf("module %s { namespace \"urn:%s\"; prefix %s; import %s { prefix x;%s } }", in, in, in, a.name, rd)
+			if err := ms.Parse(text, in+".yang"); err != nil {
+				return &core.Verdict{Infra: "importer does not parse: " + err.Error()}
+			}
+			ms.Process()
+			got := "none"
+			if im := ms.Modules[in]; im != nil && len(im.Import) == 1 {
+				got = tagOf(im.Import[0].Module)
+			}
+			emit(map[string]any{"ev": "import", "name": a.name, "rev": rev, "tag": got})
+		}
+	}
+	for _, n := range names {
+		for _, key := range []string{n, "s" + n} {
+			m := ms.Modules[key]
+			if strings.HasPrefix(key, "s") {
+				m = ms.SubModules[key]
+			}
+			emit(map[string]any{"ev": "bare", "name": key, "tag": tagOf(m)})
+		}
+	}
+	return &core.Verdict{OK: true, Class: class, NT: nl >= 4, Events: events}
+}
+
+func genFs(rng *rand.Rand, tmp string, tid int, events []json.RawMessage) *core.Verdict {
+	ndirs := 2 + rng.Intn(3)
+	mods := []string{"n", "nx", "n-x", "xn"}
+	layout := make([][]file, ndirs)
+	var dirs []string
+	for k := 0; k < ndirs; k++ {
+		dn := fmt.Sprintf("dir%d", k)
+		if k == 0 {
+			dn = "cwd"
+		}
+		dirs = append(dirs, dn)
+		dp := filepath.Join(tmp, dn)
+		os.MkdirAll(dp, 0o755)
+		layout[k] = []file{}
+		seen := map[string]bool{}
+		for n := rng.Intn(6); n > 0; n-- {
+			f := file{Mod: mods[rng.Intn(len(mods))], Rev: rng.Intn(10), Ext: "yang"}
+			if rng.Intn(8) == 0 {
+				f.Ext = "txt"
+			}
+			if rng.Intn(3) == 0 {
+				f.Mod = "n"
+			}
+			if seen[fname(f)] {
+				continue
+			}
+			seen[fname(f)] = true
+			layout[k] = append(layout[k], f)
+			rev := ""
+			if f.Rev >= 1 && f.Rev <= 8 {
+				rev = " revision " + date(f.Rev) + ";"
+			}
+			text := fmt.Sprintf("module %s { namespace \"urn:%s\"; prefix p; description %q;%s }\n", f.Mod, f.Mod, dn+"/"+fname(f), rev)
+			os.WriteFile(filepath.Join(dp, fname(f)), []byte(text), 0o644)
+		}
+	}
+	os.Chdir(filepath.Join(tmp, "cwd"))
+	ms := yang.NewModules()
+	for _, d := range dirs[1:] {
+		ms.AddPath(filepath.Join(tmp, d))
+	}
+	want := struct {
+		Mod string `json:"mod"`
+		Rev int    `json:"rev"`
+	}{Mod: "n"}
+	if rng.Intn(3) == 0 {
+		want.Rev = 1 + rng.Intn(8)
+	}
+	name := want.Mod
+	if want.Rev != 0 {
+		name += "@" + date(want.Rev)
+	}
+	rerr := ms.Read(name)
+	chosen := map[string]any{"dir": 0, "file": file{}}
+	if rerr == nil {
+		got := tagOf(ms.Modules[want.Mod])
+		for k, d := range layout {
+			for _, f := range d {
+				if dirs[k]+"/"+fname(f) == got {
+					chosen = map[string]any{"dir": k + 1, "file": f}
+				}
+			}
+		}
+		if chosen["dir"] == 0 {
+			chosen = map[string]any{"dir": -1, "file": file{Mod: got}} // something the layout does not hold
+		}
+	}
+	b, _ := json.Marshal(map[string]any{"ev": "findfile", "layout": layout, "want": want, "chosen": chosen})
+	events = append(events, b)
+	return &core.Verdict{OK: true, Class: "find-file", NT: true, Events: events}
 }
